@@ -6,7 +6,7 @@ DESCRIPTION = {
     "rule": ("Hypothesis draws a router conversation that follows the WAMP session state machine (0-2 CHALLENGE rounds, then WELCOME or ABORT, later a GOODBYE from either "
              "side), local leave()/disconnect() calls, requests of the six kinds issued while joined (left outstanding or answered), user callback behaviours for "
              "onChallenge/onWelcome/onJoin/onLeave/onDisconnect in {return, return a pending result resolved later, raise after the base implementation ran; onLeave additionally: an override that only disconnects, and an "
-             "override that re-enters leave() before disconnecting}, optionally request errbacks that call leave() (local leave requests made while the session is ending), and at most one "
+             "override that re-enters leave() before disconnecting}, optionally request errbacks that call leave() (local leave requests made while the session is ending) or issue a new call (retry logic; it must fail, at once or later, never hang), and at most one "
              "message that is illegal in the current phase at a drawn position; every history is re-run with transport loss injected after each prefix (fault enumeration). "
              "Oracle: the callback log matches connect? join? leave? disconnect? in that order, each at most once; leave fired exactly once when a joined session ended or the "
              "router aborted; the illegal message raises ProtocolError and is not acted on; GOODBYE written at most once and a peer GOODBYE answered iff we had not sent one; once "
@@ -38,7 +38,8 @@ def strategy():
             cbs["onLeave"] = "override"       # user onLeave that only calls self.disconnect() and not the base implementation
         elif draw(st.integers(0, 5)) == 0:
             cbs["onLeave"] = "reenter"        # user onLeave that (redundantly) calls self.leave() before self.disconnect(): a local leave request while the session is ending
-        cbs["errback_leave"] = draw(st.sampled_from([False, False, True]))   # errbacks of outstanding requests call leave() (a local leave request at session end)
+        cbs["errback_leave"] = draw(st.sampled_from([False, False, True]))
+        cbs["errback_retry"] = draw(st.sampled_from([False, False, True]))   # errbacks of outstanding requests issue a new call (retry logic): it must fail at once or be failed later, never hang   # errbacks of outstanding requests call leave() (a local leave request at session end)
         cbs["onWelcome"] = draw(st.sampled_from(["return", "return", "return", "return", "return", "veto", "raise", "pending"]))
         steps = []
         for _ in range(draw(st.integers(0, 2))):
@@ -107,6 +108,7 @@ class Run:
                 s.disconnect()
             hooks["onLeave_nobase"] = reenter
         self.reenter_errors = []
+        self.retries = []
         self.w = SessionWorld(serializer=c["ser"], hooks=hooks)
         self.s = self.w.session
         self.M = self.w.message
@@ -342,16 +344,26 @@ class Run:
                 f = self.w.call(lambda: self.reg_objs()[0].unregister())
         except Exception as e:
             self.fail("request-raised-while-joined|%s|%s" % (kind, exc_key(e)), repr(e))
-        t = self.w.track(f)
-        if self.c["cbs"].get("errback_leave"):
+        if self.c["cbs"].get("errback_leave") or self.c["cbs"].get("errback_retry"):
             import txaio
 
             def eb(fail):
-                try:
-                    s.leave()
-                except Exception as e:
-                    self.reenter_errors.append(e)
+                if self.c["cbs"].get("errback_leave"):
+                    try:
+                        s.leave()
+                    except Exception as e:
+                        self.reenter_errors.append(e)
+                if self.c["cbs"].get("errback_retry") and len(self.retries) < 3:
+                    try:
+                        f2 = s.call("com.x.retry", 1)
+                    except Exception as e:       # refused at once: fine
+                        self.reenter_errors.append(e)
+                        return fail
+                    from harness.wampsess import Track
+                    self.retries.append(Track(self.w.d, f2))      # (no loop run here: we are inside a callback)
+                return fail      # Twisted: pass the failure on to the observers registered after us
             txaio.add_callbacks(f, None, eb)
+        t = self.w.track(f)      # registered after the application's own errback, so that the latter really sees the failure under Twisted
         new = self.w.t.sent[n_sent:]
         rid = new[0].request if new else None
         rec = {"kind": kind, "t": t, "rid": rid, "answered": False}
@@ -439,6 +451,12 @@ class Run:
             if "disconnect" not in ev:
                 self.fail("disconnect-not-fired", repr(ev))
             self.check_requests_failed("after-transport-gone")
+            self.w.settle()
+            for t in self.retries:
+                if not t.done:
+                    self.fail("request-issued-while-session-ends-left-pending", "a call issued from the errback of a request that was failed at session end never completes")
+                elif t.ok:
+                    self.fail("request-resolved-without-reply|retry", repr(t.value))
             s = self.s
             from autobahn.wamp.types import PublishOptions
             for name, fn in (("call", lambda: s.call("a.b")), ("publish", lambda: s.publish("a.b", options=PublishOptions(acknowledge=True))),
